@@ -111,7 +111,7 @@ def register2(reg):
     CUR = f'{S}[-1]'
     LEFT = f'{CUR}.cursor.len - {CUR}.cursor.pos'
     TARGET = f'spec_skip_frame(exp, {OTOP})'
-    contract(reg, f'{X}:ParseContext.skip_to', ['C01', 'C02'], {'self': 'Ctx', 'exp': 'func:PARSE'}, ret='Val', requires=REQ,
+    contract(reg, f'{X}:ParseContext.skip_to', ['C01', 'C02', 'C09'], {'self': 'Ctx', 'exp': 'func:PARSE'}, ret='Val', requires=REQ,
              invariants={0: [f'top_only({S}, {OS})', f'spec_same_text({OTOP}, {CUR})', f'{CUR}.cursor.pos >= {OTOP}.cursor.pos',
                              f'spec_skip_frame(exp, {CUR}) == {TARGET}']},
              decreases={0: LEFT},
